@@ -967,7 +967,12 @@ class Emitter:
                 ctx.mutbuf = n
                 pre = f"  let {self.lvar(n)} := mutslice_root {self.lvar(n)};\n"
         ret = self.norm(it.ret, it)
-        body, bt = self.block(stmts, tail, env, ctx, "  ", final=True)
+        try:
+            body, bt = self.block(stmts, tail, env, ctx, "  ", final=True)
+        except TrError as ex:
+            if str(ex).startswith(it.rel) or ".rs:" in str(ex).split(" ")[0]:
+                raise
+            raise TrError(f"{where}: {ex}")
         if ctx.mutbuf and bt == "storeres":
             pass
         elif ctx.mutbuf:
